@@ -1437,3 +1437,28 @@ def loop_source_selectors(body, loop):
     sels = [body.facts.body(c) for c in sl.calls if body.facts.body(c) is not None]
     adaptors = set(c.split('::')[-1] for c in sl.calls if re.search(r'Iterator::[a-z_]+$', c))
     return sels, adaptors
+
+
+def errkind_guarded(body, site):
+    """is `site` reached only on the equal edge of a comparison of io::Error::kind() with a constant kind?
+    returns the set of kind names compared (empty = not guarded)"""
+    kinds = set()
+    for (sw, yes, no) in body.control_deps(site):
+        pol = eq_polarity(body, sw)
+        if not pol:
+            continue
+        eq_t, ne_t, ops = pol
+        sl = backward_slice(body, [op_place(o) for o in ops if op_place(o)])
+        if eq_t in yes and ne_t in no and any(c.endswith('std::io::Error::kind') for c in sl.calls):
+            aggs = [x for l in sl.locals for (b2, si, kind, x) in body.defs().get(l, []) if kind == 'assign' and x['r']['k'] == 'agg']
+            for x in aggs:
+                m = re.match(r'Adt:std::io::ErrorKind::(\w+)$', str(x['r']['ak']))
+                if m:
+                    kinds.add(m.group(1))
+            for c in sl.consts:
+                m = re.search(r'ErrorKind::(\w+)', str(c))
+                if m:
+                    kinds.add(m.group(1))
+            if not kinds:
+                kinds.add('?')
+    return kinds
